@@ -549,3 +549,8 @@ def _build_methods():
 
 _build()
 _build_methods()
+# always-raising configurations: cumprod / cumulative_prod refuse by design; the choose contract
+# passes its extra arguments positionally, which binds `out` twice (TypeError, as in Python)
+for _n in ("H_choose", "H_choose_out", "H_cumprod", "H_cumulative_prod"):
+    if _n in globals():
+        globals()[_n].expect_return = False
